@@ -104,7 +104,11 @@ struct WGraph {  // one connected component, vertices renamed 0..n-1
 
 struct CellRec { double val; int dim; unsigned mask; };
 
-int list_cells(const WGraph& g, CellRec* cells, int* idx) {
+// The three hot oracle routines work on fixed 64-entry stack/global arrays indexed by values < 64 by construction;
+// they are not the code under test, so they are left uninstrumented (5x faster); everything else keeps ASan/UBSan.
+#define VF_ORACLE_HOT __attribute__((no_sanitize("address", "undefined")))
+
+VF_ORACLE_HOT int list_cells(const WGraph& g, CellRec* cells, int* idx) {
   int nc = 0;
   for (unsigned m = 1; m < (1u << g.n); ++m) {
     double val = g.vval;
@@ -140,7 +144,7 @@ void pairs_to_diagram(const CellRec* cells, int nc, const int* low, const int* o
 }
 
 // Z_2: columns are bit sets
-void diagram_z2(const WGraph& g, const CellRec* cells, const int* idx, int nc, Diagram& out) {
+VF_ORACLE_HOT void diagram_z2(const WGraph& g, const CellRec* cells, const int* idx, int nc, Diagram& out) {
   uint64_t col[64];
   int low[64], owner[64];
   for (int j = 0; j < nc; ++j) { low[j] = -1; owner[j] = -1; }
@@ -160,7 +164,7 @@ void diagram_z2(const WGraph& g, const CellRec* cells, const int* idx, int nc, D
 }
 
 // Z_p, p an odd prime (or 2): dense small columns with signed boundary coefficients
-void diagram_zp(const WGraph& g, const CellRec* cells, const int* idx, int nc, int p, Diagram& out) {
+VF_ORACLE_HOT void diagram_zp(const WGraph& g, const CellRec* cells, const int* idx, int nc, int p, Diagram& out) {
   static int col[64][64];
   int low[64], owner[64];
   int inv[8] = {0};
@@ -258,6 +262,7 @@ struct Counters {
   // long inputs sorted by tbb::parallel_sort: the order of tied edges may depend on work stealing, so the counters
   // that depend on the outcome are not recorded for them (the evidence stays identical from run to run)
   bool outcome_counters = true;
+  bool want_canon = false;  // the ties part compares the outputs of the different orders of one graph
 } g_cnt;
 
 #define CNT(name) (*[] { static long long* p_ = &vf::stats().c[name]; return p_; }())
@@ -335,10 +340,9 @@ std::string check_case(const Case& c, const std::vector<OEdge>& out) {
   CNT("ev.evaluations") += 1;
   removed = (long long)in.size() - (long long)got.size();
   std::string canon;
-  {
-    std::ostringstream o;
-    for (auto& kv : got) o << kv.first.first << "-" << kv.first.second << "@" << kv.second << ",";
-    canon = o.str();
+  if (g_cnt.want_canon) {
+    char b[64];
+    for (auto& kv : got) { snprintf(b, sizeof b, "%d-%d@%g,", kv.first.first, kv.first.second, kv.second); canon += b; }
   }
   if (!structural_ok) return canon;
   if (g_cnt.outcome_counters) {
@@ -370,6 +374,7 @@ std::string check_case(const Case& c, const std::vector<OEdge>& out) {
   }
   bool self = g_cnt.selfcheck_every > 0 && (g_cnt.ncase % g_cnt.selfcheck_every) == 0;
   Diagram in2, in3, out2, out3;
+  for (Diagram* d : {&in2, &in3, &out2, &out3}) d->reserve(32);
   diagrams_of(gin, in2, in3, self);
   diagrams_of(gout, out2, out3, self);
   CNT("ev.evaluations") += 2;
@@ -530,15 +535,18 @@ int main(int argc, char** argv) {
 
   if (part == "graphs" || part == "ties") {
     // every labelled weighted graph: each pair absent or with a weight of W
+    // --complete 1: only complete graphs (every pair carries a weight of W), the Rips / distance-matrix situation
     double cap = (double)a.geti("cap", 720);
+    bool complete = a.geti("complete", 0) != 0;
+    size_t base = W.size() + (complete ? 0 : 1);
     unsigned long long total = 1;
-    for (size_t i = 0; i < E; ++i) total *= (W.size() + 1);
+    for (size_t i = 0; i < E; ++i) total *= base;
     for (unsigned long long code = a.shard; code < total; code += a.nshards) {
       std::vector<IEdge> edges;
       unsigned long long x = code;
       for (size_t i = 0; i < E; ++i) {
-        int d = (int)(x % (W.size() + 1));
-        x /= (W.size() + 1);
+        int d = (int)(x % base) + (complete ? 1 : 0);
+        x /= base;
         if (d) edges.push_back({pairs[i].first, pairs[i].second, W[d - 1]});
       }
       S.add("enum.graphs");
@@ -550,6 +558,7 @@ int main(int argc, char** argv) {
         }
       } else {
         if (edges.empty()) continue;
+        g_cnt.want_canon = true;
         double t = tie_orders(edges);
         if (t > cap) { S.add("enum.graphs_outside_scope_more_tie_orders_than_cap"); continue; }
         S.add("enum.graphs_in_tie_scope");
